@@ -23,7 +23,7 @@ PROPERTY = "C20"
 RULE = ("Hypothesis draws a configuration whose out-state computation draws no random numbers (shipped wirings with the "
         "pair handler replaced by the invertible TwoLeafUnitEventHandler: Coulomb-atom wiring with inverse-power "
         "potentials, N=2..6; dipole atom-factor wiring; the shipped single hard-disk dipole), a seed, the number of cores "
-        "2..6, an end time, a per-handler table of answer delays (0-6 ms) and an arrival policy (natural, or the harness hands the mediator one ready answer at a time: uniformly chosen, pre-computed out-states first, or out-states last). Two subprocesses run the single-process and "
+        "2..6, an end time, optionally a periodic no-op handler with an empty out-state (the shipped dumping handler, its write recorded instead of executed), a per-handler table of answer delays (0-6 ms) and an arrival policy (natural, or the harness hands the mediator one ready answer at a time: uniformly chosen, pre-computed out-states first, or out-states last). Two subprocesses run the single-process and "
         "the multi-process mediator with the same per-handler random streams. Oracle: identical sequences of (handler "
         "index, event time as float.hex, digest of the global state after the commit) and of written samples; after "
         "post_run no worker process is left; no deadlock. Non-trivial: a run with >= 40 commits in which the order "
@@ -76,6 +76,7 @@ def mp_case(draw):
     c["delays"] = [[draw(st.sampled_from([0.0, 0.0, 0.0005, 0.001, 0.003])) for _ in range(draw(st.integers(1, 4)))]
                    for _ in range(rows)]
     # order in which the mediator sees the workers' answers (see vlib/mp_worker.py)
+    c["noop_period"] = draw(st.sampled_from([None, None, 0.07, 0.19, 0.31]))
     c["arrival"] = {"policy": draw(st.sampled_from(["natural", "one-random", "one-random", "out-first", "out-last"])),
                     "seed": draw(st.integers(0, 2 ** 31))}
     return c
@@ -91,6 +92,11 @@ def make_text(c):
     t = (mon.last_commit_time[0] + mon.last_commit_time[1]) if mon.last_commit_time else 1.0
     end = round(max(c.get("events", 150) * max(t, 1e-9) / 150.0, 1e-6), 9)
     text = configs.set_option(text, "FinalTimeEndOfRunEventHandler", "end_of_run_time", repr(end))
+    if c.get("noop_period"):
+        # a periodic handler with an EMPTY out-state and no out-state arguments (the shipped dumping handler; the worker
+        # records its write instead of pickling the mediator): it can be pre-computed and its out-state is falsy
+        from .C19 import add_dumping
+        text = add_dumping(text, round(end * c["noop_period"], 9))
     return localise(text)
 
 
